@@ -1,11 +1,12 @@
 (* Model of smartcontract/vestingsc/vesting.go (property C16): add, trigger, unlock (owner /
    destination), stop, delete on one vesting pool.  Definitions only.
    Coins are uint64 (option at currency.AddCoin/MinusCoin, explicit mod 2^64 at the unchecked
-   [vp.Balance - need]); timestamps are int64 seconds (assumed far from overflow); the vested
-   share of a period is computed in float64 exactly as destination.unlock does
-   (currency.MultFloat64(left, float64(period)/float64(full)), ratio 1.0 at the end) on
-   Coq.Floats.SpecFloat through Model/F64.v.  The share function is a parameter of the model so
-   that theorems can be stated for every rounding behaviour; [vs_share_f64] is the code's. *)
+   [vp.Balance - need]); timestamps are int64 seconds (assumed far from overflow). The share
+   function is a parameter of the model: [vs_share_int] is what destination.unlock computes
+   (the whole remainder at the end, else bits.Mul64/bits.Div64: left * period / full rounded down,
+   an error when period < 0 or period >= full); [vs_share_f64] is what it computed before commit
+   f517460 of /repo (currency.MultFloat64(left, float64(period)/float64(full)), ratio 1.0 at the
+   end, on Coq.Floats.SpecFloat through Model/F64.v), kept as the record of that defect. *)
 From Coq Require Export List ZArith Bool Lia.
 From ZC Require Export Model.F64.
 Export ListNotations.
@@ -19,6 +20,11 @@ Definition vs_minus_coin (a b : Z) : option Z := if a <? b then None else Some (
 
 (* share left period full ending = amount to vest now (None = currency error) *)
 Definition vs_share_fn := Z -> Z -> Z -> bool -> option Z.
+
+Definition vs_share_int : vs_share_fn := fun lft period full ending =>
+  if ending then Some lft
+  else if (period <? 0) || (full <=? period) then None
+  else Some (lft * period / full).
 
 Definition vs_share_f64 : vs_share_fn := fun lft period full ending =>
   let ratio := if ending then f64_of_Z 1 else f64_div (f64_of_Z period) (f64_of_Z full) in
